@@ -85,7 +85,9 @@ class Facts:
         self.consts = d["consts"]
         self.impls = d["impls"]
         self.fns = d["fns"]
-        self.bodies = [Body(self, b) for b in d["bodies"]]
+        raws = self._inline_new_helpers(d["bodies"])
+        self.bodies = [Body(self, b) for b in raws]
+        self._flat = {}
         self.optimized = None
         self._opt_raw = d.get("optimized", [])
         self.by_path = defaultdict(list)
@@ -94,6 +96,70 @@ class Facts:
         self.by_spath = defaultdict(list)
         for b in self.bodies:
             self.by_spath[b.spath].append(b)
+
+    def _inline_new_helpers(self, raws):
+        """Functions that are not in the reference list of function names (engine/known_fns.txt) are
+        helpers a refactoring introduced: inline them into their callers and drop them, so that the
+        rules see the callers as they were (see flatten.py)."""
+        import flatten
+        known = flatten.load_known_fns()
+        self.inlined_helpers = []
+        if known is None or self.raw.get("crate") != "stretto":
+            return raws
+        def is_new(b):
+            return b["defkind"] in ("Fn", "AssocFn") and b["span"]["f"].startswith("src/") and not b["span"]["f"].endswith("test.rs") \
+                and "::test::" not in b["path"] and "::tests::" not in b["path"] and strip_generics(b["path"]) not in known
+        def calls_fn_value(b):
+            # a helper that takes a closure and calls it (directly or from its own closures) stays a
+            # function: the analyses that follow closure parameters (lock order) need the call site
+            fam = [b] + [c for c in raws if c.get("root") == b["path"] and c is not b]
+            for x in fam:
+                for bb in x["blocks"]:
+                    t = bb["term"]
+                    if t and t["k"] == "call" and re.search(r"ops::(Fn::call|FnMut::call_mut|FnOnce::call_once)$", t.get("callee", "")):
+                        return True
+            return False
+        helpers = {strip_generics(b["path"]): b for b in raws if is_new(b) and not calls_fn_value(b)}
+        if not helpers:
+            return raws
+
+        def lookup(path):
+            return helpers.get(strip_generics(path or ""))
+        out = []
+        first_caller = {}
+        for b in raws:
+            if strip_generics(b["path"]) in helpers and b["defkind"] in ("Fn", "AssocFn"):
+                continue
+            nb, done = flatten.inline_function_calls(b, lookup, lambda c: True)
+            for h in done:
+                first_caller.setdefault(h, nb)
+            out.append(nb)
+        # helpers may call helpers: inline_function_calls iterates; closures of a helper move to its first caller
+        res = []
+        for b in out:
+            if b["defkind"] not in ("Fn", "AssocFn"):
+                for hp, hb in helpers.items():
+                    if b["parent"] == hb["path"] or b["root"] == hb["path"]:
+                        fc = first_caller.get(hb["path"])
+                        if fc is not None:
+                            b = dict(b)
+                            if b["parent"] == hb["path"]:
+                                b["parent"] = fc["path"]
+                            b["root"] = fc["root"]
+            res.append(b)
+        self.inlined_helpers = sorted(helpers)
+        return res
+
+    def flat(self, body):
+        """The body with eager std combinators taking closure literals desugared to explicit control
+        flow (closure bodies spliced in): see flatten.py.  Cached per body."""
+        import flatten
+        if body.path not in self._flat:
+            raw, n = flatten.desugar_combinators(body.raw, lambda dp: (self.by_path.get(dp) or [None])[0].raw if self.by_path.get(dp) else None)
+            fb = Body(self, raw) if n else body
+            fb.n_desugared = n
+            self._flat[body.path] = fb
+        return self._flat[body.path]
 
     def opt_bodies(self):
         if self.optimized is None:
@@ -573,6 +639,16 @@ def norm(e):
             op, b = "BitAnd", ("const", b[1] - 1, b[2])
         if op in ("Shl", "Shr") and b[0] == "const":
             b = ("const", b[1], "shamt")
+        if a[0] == "const" and b[0] == "const" and isinstance(a[1], int) and isinstance(b[1], int) and not isinstance(a[1], bool) and not isinstance(b[1], bool) \
+                and op in ("Add", "Sub", "Mul", "BitAnd", "BitOr", "BitXor", "Shl", "Shr"):
+            # constant folding (`NUM_OF_SHARDS - 1`); the checked forms assert no overflow separately
+            try:
+                v = {"Add": a[1] + b[1], "Sub": a[1] - b[1], "Mul": a[1] * b[1], "BitAnd": a[1] & b[1], "BitOr": a[1] | b[1], "BitXor": a[1] ^ b[1],
+                     "Shl": a[1] << (b[1] & 63), "Shr": a[1] >> (b[1] & 63)}[op]
+                if 0 <= v < (1 << 64):
+                    return ("const", v, a[2])
+            except (ValueError, OverflowError):
+                pass
         if op in COMMUTATIVE and repr(a) > repr(b):
             a, b = b, a
         return ("bin", op, a, b)
@@ -587,7 +663,13 @@ def norm(e):
     if k == "field":
         return ("field", norm(e[1]), e[2])
     if k == "call":
-        return ("call", e[1], tuple(norm(x) for x in e[2]))
+        args = tuple(norm(x) for x in e[2])
+        # trait comparisons: a.ge(b) == b.le(a), a.gt(b) == b.lt(a) (written `a >= b` / `b <= a` on non-primitive types)
+        if len(args) == 2 and isinstance(e[1], str):
+            for frm, to in (("PartialOrd::ge", "PartialOrd::le"), ("PartialOrd::gt", "PartialOrd::lt")):
+                if e[1].endswith(frm):
+                    return ("call", e[1][: -len(frm)] + to, (args[1], args[0]))
+        return ("call", e[1], args)
     if k == "index":
         return ("index", norm(e[1]), norm(e[2]))
     if k == "downcast":
